@@ -37,7 +37,7 @@ MODULES = [
     },
     {
         "out": "Gen/MathGen.v",
-        "props": ["C20", "C08", "C03", "C10"],
+        "props": ["C20", "C08", "C03", "C10", "C14"],
         "items": [
             {"file": MATH, "py": "maybe_zero", "g": "g_maybe_zero", "params": [("x", "Q"), ("tol", "Q")], "ret": "Q"},
             {"file": MATH, "py": "split_float", "g": "g_split_float", "params": [("x", "Q")], "ret": ("T", "Q", "Q")},
@@ -50,6 +50,10 @@ MODULES = [
             {"file": MATH, "py": "snap_grid", "g": "g_snap_grid",
              "params": [("x0", "Q"), ("x1", "Q"), ("res", "Q"), ("off_pix", "OQ"), ("tol", "Q")],
              "ret": ("T", "Q", "Z"), "raises": True},
+            {"file": MATH, "py": "Bin1D.__getitem__", "g": "g_bin1d_getitem",
+             "self": [("sz", "Q"), ("origin", "Q"), ("direction", "Z")], "params": [("idx", "Z")], "ret": ("T", "Q", "Q")},
+            {"file": MATH, "py": "Bin1D.bin", "g": "g_bin1d_bin",
+             "self": [("sz", "Q"), ("origin", "Q"), ("direction", "Z")], "params": [("x", "Q")], "ret": "Z", "raises": True},
             {"file": OVERLAP, "py": "compute_axis_overlap", "g": "g_compute_axis_overlap",
              "params": [("Ns", "Z"), ("Nd", "Z"), ("s", "Q"), ("t", "Q")], "ret": ("T", "NS", "NS"), "raises": True},
             {"file": OVERLAP, "py": "_pick_read_scale", "g": "g_pick_read_scale",
